@@ -113,6 +113,17 @@ def close_pool():
         _POOL = None
 
 
+import hashlib
+
+DIGEST = None     # set to a hashlib object to accumulate an execution digest
+
+
+def digest_update(obj):
+    if DIGEST is not None:
+        DIGEST.update(json.dumps(obj, sort_keys=True,
+                                 default=repr).encode('utf-8'))
+
+
 class RunResult(object):
     def __init__(self, events, exit_code, timed_out, req):
         self.events = events
@@ -288,6 +299,10 @@ class Workspace(object):
             os.unlink(trace)
         res = RunResult(events, reply['exit'], reply['timeout'], req)
         self.runs.append(res)
+        if DIGEST is not None:
+            digest_update([e for e in events if e['t'] != 'tb'])
+            digest_update([reply['exit'], reply['timeout'], op,
+                           self.clock_iso(), hashseed])
         # each run consumes simulated time: one second by default
         self.clock_us += 1000000
         return res
